@@ -336,6 +336,37 @@ func Guard(classifier string, fn func() *Finding) (f *Finding) {
 	return fn()
 }
 
+// inflight records the case about to be checked when the driver asks for it (race-enabled
+// binaries run with halt_on_error: the process dies inside the case, and the driver turns
+// the recorded case into the replay file of the data-race violation).
+func (u *Unit) inflight(c any) {
+	if os.Getenv("VERIF_INFLIGHT") == "" {
+		return
+	}
+	out := os.Getenv("VERIF_OUT")
+	if out == "" {
+		return
+	}
+	shard, _ := Shard()
+	b, err := json.Marshal(map[string]any{"property": u.Property, "unit": u.Name, "case": caseJSON(c)})
+	if err != nil {
+		return
+	}
+	p := filepath.Join(out, fmt.Sprintf("inflight.%s.%d.json", sanitize(u.Name), shard))
+	if os.WriteFile(p+".tmp", b, 0o644) == nil {
+		_ = os.Rename(p+".tmp", p)
+	}
+}
+
+func (u *Unit) inflightDone() {
+	if os.Getenv("VERIF_INFLIGHT") == "" || os.Getenv("VERIF_OUT") == "" {
+		return
+	}
+	shard, _ := Shard()
+	_ = os.Remove(filepath.Join(os.Getenv("VERIF_OUT"), fmt.Sprintf("inflight.%s.%d.json", sanitize(u.Name), shard)))
+}
+
+
 // Rapid runs a generated-input property: draw produces a case (all random
 // choices inside rapid), check is the oracle. checks is the case count for
 // this unit. Regression cases (saved shrunk failures, hostile constants) are
@@ -348,7 +379,9 @@ func Rapid[C any](u *Unit, checks int, regress []C, draw func(*rapid.T) C, check
 			u.T.Fatalf("replay case does not decode: %v", err)
 		}
 		u.Eval(1)
+		u.inflight(c)
 		f := check(c)
+		u.inflightDone()
 		if f != nil {
 			if u.Report(f, c) {
 				u.T.Logf("replay: still fails: [%s] %s", f.Classifier, f.What)
@@ -366,7 +399,9 @@ func Rapid[C any](u *Unit, checks int, regress []C, draw func(*rapid.T) C, check
 	for _, c := range regress {
 		u.Eval(1)
 		u.Label("regression-case")
+		u.inflight(c)
 		u.Report(check(c), c)
+		u.inflightDone()
 	}
 	if checks <= 0 {
 		return
@@ -383,7 +418,9 @@ func Rapid[C any](u *Unit, checks int, regress []C, draw func(*rapid.T) C, check
 		rapid.Check(t, func(rt *rapid.T) {
 			c := draw(rt)
 			u.Eval(1)
+			u.inflight(c)
 			f := check(c)
+			u.inflightDone()
 			if f == nil {
 				return
 			}
